@@ -2,7 +2,7 @@ SPEC = {
     "id": "C06",
     "props_module": "NDB.Props.C06",
     "corr_modules": ["NDB.Corr.C06"],
-    "theorems": ["C06_refuted"],
+    "theorems": ["C06_refuted", "C06_refines_partial"],
     "allowed_axioms": [],
     "harness_pkg": "hx_engine",
     "harness_bin": "engine",
@@ -22,7 +22,7 @@ SPEC = {
 ],
     "manifest": {
         "category": "proof",
-        "text": "Refuted: C06_refuted exhibits two well-formed commit-only histories on which the faithful model (= the implementation, by correspondence) disagrees with the spec graph (K-C06-eprops, K-C14-samerun). NOT proved: the conditional refinement theorem 'outside the known classes every read equals the spec graph' \u2014 for C06 it is only sampled: every generated history is compared read-by-read (nodes, labels, external ids, lookup, both edge views with multiplicity, single and whole-map property reads) with the reference graph after every commit, failures must fall into a known class whose executable predicate holds. Model = implementation and Coq spec = Rust reference are checked inside Coq on every case.",
+        "text": "Proved for ALL histories of the executable fragment grow_hist (C06_refines_partial): commit-only histories of node creations with 0 or 1 label, relationship creations (parallel, self loops) and property sets/removals on nodes and relationships: nodes(), neighbors and incoming_neighbors (as multisets), node_property, edge_property, labels, external ids and external-id lookup of the faithful model equal those of the spec graph (relation Rel between memtable+runs and the graph, one commutation lemma per write kind, commit, induction over the history; non-vacuity Example). Refuted in general: C06_refuted exhibits three well-formed commit-only histories outside the fragment on which the model (= the implementation, by correspondence) disagrees with the spec graph (K-C06-eprops, K-C14-samerun, K-C06-labelorder). NOT proved: histories with deletes (tombstone overlay) and label changes outside the known classes, and the two whole-map reads (node_properties / edge_properties) \u2014 these are only sampled: every generated history is compared read-by-read with the reference graph after every commit and failures must fall into a known class whose executable predicate holds. Model = implementation and Coq spec = Rust reference are checked inside Coq on every case.",
         "design_ref": "DESIGN.md §5 C06 (Storage: logical content)",
         "level_note": "Trusted: Coq kernel; hand-written model tied to the code by sampled correspondence (not by proof). The full statement is REFUTED on the pinned code (witness theorem, reproduced on the implementation, recorded as known findings); conditional theorems cover only the part stated in the text.",
         "technique": "Rocq: executable faithful model + spec graph, refutation witnesses by vm_compute, invariants by induction over histories; vm_compute model/implementation correspondence on generated histories; direct search against a reference graph / erased or stripped re-runs on the implementation",
